@@ -23,6 +23,9 @@ def _to_list(val: Union['Task', Iterable['Task']]) -> List['Task']:
 def _find_root(task: 'Task'):
     if task.parent is not None:
         return _find_root(task.parent)
+    if task.wbs is not None:
+        # noinspection PyProtectedMember
+        return task.wbs._root()
     return task
 
 
